@@ -3,8 +3,9 @@
 cd "$(dirname "$0")/.."
 for p in C01 C02 C03 C04 C05 C06 C07 C08 C09 C10 C11 C12 C13 C14 C15 C16 C17 C18 C19 C20; do
   s=$(date +%s)
-  out=$(timeout 1500 ./vcheck $p ${1:-quick} 2>/dev/null | tail -3)
+  out=$(timeout 3000 ./vcheck $p ${1:-quick} 2>/dev/null)
   rc=$?
+  out=$(echo "$out" | tail -n 8)
   e=$(date +%s)
   echo "$p rc=$rc $((e-s))s :: $(echo "$out" | tail -1)"
   echo "$out" | grep "VIOLATION\|UNDECIDED\|KNOWN" | head -5
